@@ -472,10 +472,109 @@ def errors(ctx, m):
                 ctx.mismatch("C17/dispatch-table", inp, got, want)
 
 
+def supplied_grid(ux, m, S, via):
+    """a grid whose SOURCE carries the edge table S (public constructors only)"""
+    if via == "from_topology":
+        return meshes.to_grid(m, ux, edge_node_connectivity=S.copy())
+    import xarray as xr
+
+    ds = xr.Dataset()
+    ds["Mesh2"] = xr.DataArray(np.int32(0), attrs=dict(cf_role="mesh_topology", topology_dimension=2, node_coordinates="Mesh2_node_x Mesh2_node_y",
+                                                      face_node_connectivity="Mesh2_face_nodes", edge_node_connectivity="Mesh2_edge_nodes"))
+    ds["Mesh2_node_x"] = xr.DataArray(m.lon.copy(), dims=["nMesh2_node"], attrs=dict(standard_name="longitude", units="degrees_east"))
+    ds["Mesh2_node_y"] = xr.DataArray(m.lat.copy(), dims=["nMesh2_node"], attrs=dict(standard_name="latitude", units="degrees_north"))
+    ds["Mesh2_face_nodes"] = xr.DataArray(m.table().copy(), dims=["nMesh2_face", "nMaxMesh2_face_nodes"],
+                                          attrs=dict(cf_role="face_node_connectivity", _FillValue=INT_FILL, start_index=0))
+    ds["Mesh2_edge_nodes"] = xr.DataArray(S.copy(), dims=["nMesh2_edge", "Two"], attrs=dict(cf_role="edge_node_connectivity", start_index=0))
+    return ux.open_grid(ds)
+
+
+READS = ["edge_face_connectivity", "face_face_connectivity", "n_max_face_edges", "face_edge_connectivity", "isel"]
+
+
+def judge_supplied_edges(ctx, m, fixed=None):
+    """Grids WITH A SOURCE-SUPPLIED edge table: a random permutation of the edges with a random orientation per row.
+    The elements of destination='edge' are the SOURCE's edges: value i must be the reduction over the two nodes of
+    supplied row i (Lean gathers from the supplied table; agg_edge_orientation_irrelevant: orientation is immaterial).
+    Each case is judged twice on the same grid — fresh, and after a random read that derives face_edge_connectivity —
+    the two results must be equal and the grid's edge table must still be the supplied one."""
+    import uxarray as ux
+
+    rng = ctx.rng
+    segs = sorted({tuple(sorted((f[i], f[(i + 1) % len(f)]))) for f in m.faces for i in range(len(f))})
+    rng.shuffle(segs)
+    S = np.array([(a, b) if rng.random() < 0.5 else (b, a) for a, b in segs], dtype=np.int64)
+    Sl = [(int(a), int(b)) for a, b in S]
+    via = rng.choice(["from_topology", "ugrid-dataset"])
+    read = rng.choice(READS)
+    agg = rng.choice(AGGS)
+    dtype = rng.choice(["int", "float", "bool", "wild"])
+    lead = [rng.randint(1, 2) for _ in range(rng.choice([0, 0, 1]))]
+    data = make_data(rng, m.n_node, lead, dtype)
+    if fixed is not None:  # replay: exactly the recorded case
+        S = np.array(fixed["supplied_edges"], dtype=np.int64).reshape(-1, 2)
+        Sl = [(int(a), int(b)) for a, b in S]
+        via, read, agg, dtype, lead = fixed["via"], fixed["read"], fixed["agg"], fixed["dtype"], list(fixed["lead"])
+        data = np.array(fixed["data"], dtype={"int": np.int64, "bool": bool}.get(dtype, np.float64)).reshape(tuple(lead) + (m.n_node,))
+    dims = [f"d{i}" for i in range(len(lead))] + ["n_node"]
+    inp = dict(mesh=m.describe(), table=m.rows(), supplied_edges=Sl, via=via, read=read, agg=agg, dtype=dtype, lead=lead, data=data.tolist())
+    ctx.case(("supplied-edges", m.rows(), tuple(Sl), via, read, agg, dtype, data.tobytes().hex()[:48]), nontrivial=True)
+    ctx.hit("supplied-edges:via=" + via)
+    ctx.hit("supplied-edges:read=" + read)
+    try:
+        g = supplied_grid(ux, m, S, via)
+        uxda = ux.UxDataArray(data, dims=dims, uxgrid=g, name="v")
+    except Exception as e:  # constructing from a source is C01's subject
+        ctx.hit("supplied-edges:construct-raised:" + type(e).__name__)
+        return
+    results = {}
+    for phase in ("fresh", "after-" + read):
+        if phase != "fresh":
+            try:
+                if read == "isel":
+                    uxda.isel(n_face=[rng.randrange(m.n_face)])
+                else:
+                    getattr(g, read)
+            except Exception as e:  # the derivation itself is C02/C03/C09's subject
+                ctx.hit(f"supplied-edges:{read}-raised:" + type(e).__name__)
+                return
+        try:
+            res = getattr(uxda, f"topological_{agg}")(destination="edge")
+            out = np.asarray(res.values)
+            Eg = np.asarray(g.edge_node_connectivity.values)
+        except Exception as e:
+            ctx.fail(f"C17/supplied-edges/raises/{phase.split('-')[0]}/{type(e).__name__}", f"topological_{agg}(edge) on a grid with a supplied edge table raises "
+                     f"{type(e).__name__} ({phase}): {e}", inp)
+            return
+        results[phase] = out
+        obs = dict(phase=phase, values=out.tolist(), edge_node_connectivity=Eg.tolist())
+        kept = Eg.shape == S.shape and np.array_equal(Eg, S)
+        if out.shape != tuple(lead) + (len(Sl),):
+            ctx.fail("C17/supplied-edges/dims", f"result shape {out.shape} for {len(Sl)} supplied edges ({phase})", inp, obs, None, ["agg_dims"])
+            return
+        ok, _, bad, vals = lean_judge(ctx, "C17.qedge", agg, 0, enc_pairs(Sl), data.reshape(-1, m.n_node), out.reshape(-1, out.shape[-1]))
+        ctx.hit("lean-judged:supplied-edges:" + ("fresh" if phase == "fresh" else "after-read"))
+        if not ok:
+            li, fb = bad
+            ctx.fail("C17/supplied-edges/value/" + ("fresh" if phase == "fresh" else "after-read"),
+                     f"topological_{agg}(edge), {phase}: value {fb} (leading slice {li}) is not the reduction over the two nodes {Sl[fb] if 0 <= fb < len(Sl) else None} "
+                     f"of the source's edge {fb} (Lean accepts=false); the grid's edge table is {'still' if kept else 'NO LONGER'} the supplied one",
+                     inp, obs, dict(exact=[[None if v is None else float(v) for v in vs] for vs in vals]), ["agg_edge_eq", "accepts"])
+        elif not kept:
+            ctx.fail("C17/supplied-edges/table-replaced/" + ("fresh" if phase == "fresh" else "after-read"),
+                     f"the grid's edge_node_connectivity is not the table the source supplied ({phase}): the elements of destination='edge' changed", inp, obs, None,
+                     ["agg_edge_eq"])
+    a, b = results.values()
+    if a.shape != b.shape or not np.array_equal(a, b, equal_nan=a.dtype.kind == "f"):
+        ctx.fail("C17/supplied-edges/changed-after-read", f"topological_{agg}(edge) on the same grid and data changed after reading {read}", inp,
+                 dict(fresh=a.tolist(), after=b.tolist()), None, ["agg_edge_eq"])
+
+
 def run(ctx):
     ctx.rule = ("meshes from harness/meshes.zoo in random face order × (reduction, destination) × dtype int/float(dyadic)/bool/wild float "
                 "(arbitrary mantissas over 7 decades) × 0..2 leading dims × NumPy- or dask-backed source × ddof 0/1 for std/var; sub-grids "
-                "(isel n_face) of every mesh; (centre, destination) decision table on n_node/n_edge/n_face/non-grid dims; distinct = distinct "
+                "(isel n_face) of every mesh; grids with a SOURCE-SUPPLIED edge table (from_topology / UGRID dataset; random permutation of the edges, random "
+                "orientation per row) judged fresh and after a read that derives face_edge_connectivity; (centre, destination) decision table on n_node/n_edge/n_face/non-grid dims; distinct = distinct "
                 "(table, reduction, destination, dtype, ddof, shape, data); non-trivial = mixed face sizes or edge destination")
     ctx.assumptions = ["the ten reductions are modelled exactly over ℚ (Aggregate.core; std by its square); the verdict on every output is Lean's "
                        "`accepts` = within a float64 rounding allowance derived from the row length and Σ|x| (zero for min/max/all/any); inputs are "
@@ -488,6 +587,9 @@ def run(ctx):
         ms += meshes.zoo(ctx.rng, big=False)
     for m in ms:
         judge(ctx, m, m.kind)
+    for m in ms:
+        for _ in range(ctx.n(2, 3)):
+            judge_supplied_edges(ctx, m)
     for m in ms[:3] + [meshes.hull(4, ctx.rng)]:
         errors(ctx, m)
     source_correspondence(ctx)
@@ -502,5 +604,7 @@ def replay(ctx, rp):
     m = meshes.AMesh(faces, xyz, False, "replay")
     if "centre" in inp:
         errors(ctx, m)
+    elif "supplied_edges" in inp:
+        judge_supplied_edges(ctx, m, inp)
     else:
         judge(ctx, m, "replay", inp.get("subset_faces"))
